@@ -44,12 +44,12 @@ type Selection struct {
 }
 
 type sweeper struct {
-	curRoots []*ssa.Function
+	curRoots     []*ssa.Function
 	pathVisiting map[ssa.Value]bool
-	p    *load.Program
-	iv   *InitVals
-	obls []*core.Obl
-	seen map[string]int
+	p            *load.Program
+	iv           *InitVals
+	obls         []*core.Obl
+	seen         map[string]int
 }
 
 func Run(env *core.Env, p *load.Program, prop string, sel json.RawMessage) (*core.Result, error) {
